@@ -482,7 +482,10 @@ class H5Reader:
 
             try:
                 values = np.r_[h5file[name]["Data"][as_str_if_uuid(uid)]["Data"]]
-                if isinstance(values[0], (str, bytes)):
+                if len(values) == 0:
+                    if values.dtype == object:
+                        values = values.astype(str)
+                elif isinstance(values[0], (str, bytes)):
                     values = np.asarray([as_str_if_utf8_bytes(val) for val in values])
                     if len(values) == 1:
                         values = values[0]
